@@ -21,7 +21,7 @@ ASSUMPTIONS = ['"no alignment exists" is read as "no alignment of finite total c
                'ties: any optimal alignment is accepted (costs are compared, not paths)']
 N = {'quick': 4000, 'thorough': 150000}
 CLASSES = ['continuous', 'integer_ties', 'with_inf', 'boundary', 'small_brute', 'small_brute_inf', 'blank_in_labels', 'long', 'float32', 'float32_long']
-REQUIRED = ['float32_matrices', 'feasible_checked', 'infeasible_checked', 'brute_checked', 'align_text_checked', 'nojit_compared']
+REQUIRED = ['presentation:0', 'presentation:1', 'presentation:2', 'presentation:5', 'float32_matrices', 'feasible_checked', 'infeasible_checked', 'brute_checked', 'align_text_checked', 'nojit_compared']
 TIMEOUT = {'quick': 900, 'thorough': 7200}
 
 
@@ -119,6 +119,35 @@ def check(case, mon, ctx):
     c = float(sum(float(cost[t, a]) for t, a in enumerate(al)))
     if not (c <= opt + 1e-9 * max(1.0, abs(opt))):
         mon.violation('minimal-cost', {'alignment': al, 'cost': c, 'optimal': opt})
+    # the same numbers presented differently (memory layout of the matrix, container of the labels): a minimal-cost alignment again, and the caller's
+    # matrix is left unchanged
+    variant = (T + len(labels) + blank) % 6
+    mon.count('presentation:%d' % variant)
+    big = np.full((T + 3, 2 * cost.shape[1] + 1), 7.0, dtype=cost.dtype)
+    if variant == 0:
+        cv, lv = np.asfortranarray(cost), list(labels)
+    elif variant == 1:
+        big[:, ::2][1:T + 1, :cost.shape[1]] = cost
+        cv, lv = big[:, ::2][1:T + 1, :cost.shape[1]], list(labels)             # a strided view into a larger matrix
+    elif variant == 2:
+        cv, lv = cost.copy(), np.array(labels, dtype=np.int32)
+    elif variant == 3:
+        cv, lv = cost.copy(), tuple(int(x) for x in labels)
+    elif variant == 4:
+        cv, lv = cost.copy(), np.array(labels, dtype=np.int64)
+    else:
+        cv, lv = cost[::-1][::-1], [np.int64(x) for x in labels]                # negative-stride round trip, numpy integer scalars
+    keep = np.array(cv, copy=True)
+    try:
+        r3 = fa.force_align(cv, lv, blank)
+        al3 = [int(x) for x in r3]
+        c3 = float(sum(float(cost[t, a]) for t, a in enumerate(al3))) if len(al3) == T else math.inf
+        if len(al3) != T or collapse(al3, blank) != [int(x) for x in labels] or not (c3 <= opt + 1e-9 * max(1.0, abs(opt))):
+            mon.violation('minimal-cost', {'presentation': variant, 'alignment': al3, 'cost': c3, 'optimal': opt, 'note': 'same numbers, other memory layout / label container'})
+    except Exception as e:
+        mon.violation('failure-iff-infeasible', {'presentation': variant, 'exception': repr(e)[:200], 'optimal_cost': opt})
+    if not np.array_equal(np.asarray(cv), keep):
+        mon.violation('input-left-unchanged', {'presentation': variant})
     # positions variant must describe the same path
     status2, pos = run_force_align(fa, cost, labels, blank, return_seq_positions=True)
     if status2 != 'ok' or len(pos) != T or any((p == -1) != (a == blank) or (p != -1 and labels[int(p)] != a) for p, a in zip(pos, al)):
